@@ -108,13 +108,15 @@ def run(tier, rep):
                 with open(os.path.join(dd, 'expect.txt'), 'w') as f:
                     f.write('%d %.17g %.17g %.17g %.17g\n' % (-n, emin, emax, step, qbb))
                 names.append(nm)
+    modes_tree = os.path.join(d, 'modes_tree')
+    gadata.install_tree(modes_tree)
     chunks = [names[i::16] for i in range(16)]
 
     def work(i):
         lst = os.path.join(d, 'list%d' % i)
         open(lst, 'w').write('\n'.join(chunks[i]) + '\n')
         out = os.path.join(d, 'out%d.json' % i)
-        r = subprocess.run([exe, '--list', lst, '--root', root, '--out', out], timeout=3000, stdout=subprocess.PIPE, stderr=subprocess.PIPE, text=True)
+        r = subprocess.run([exe, '--list', lst, '--root', root, '--out', out] + (['--modes-tree', modes_tree] if i == 0 else []), timeout=3000, stdout=subprocess.PIPE, stderr=subprocess.PIPE, text=True)
         if r.returncode != 0:
             raise SystemExit('HARNESS-ERROR: c14 exited %d %s' % (r.returncode, r.stderr[-500:]))
         return json.load(open(out))
@@ -128,6 +130,9 @@ def run(tier, rep):
         samples += x['samples'][:1]
         for v in x['violations']:
             # key by the kind of failure and the dataset family, not by every dataset
+            if v['key'].startswith('ga:mode:'):
+                rep.violation(v['key'], v['text'])
+                continue
             if v['key'].startswith(('reuse:', 'crash:')):
                 kind = v['key'].split(':')[0]
                 rep.violation('ga:%s' % kind if kind == 'crash' else 'ga:reuse:%s' % v['key'].rsplit(':', 1)[-1], v['text'])
@@ -140,7 +145,7 @@ def run(tier, rep):
     rep.coverage.update({
         'evaluations': ev, 'distinct_nontrivial': nt, 'datasets': ds, 'datasets_the_encoder_cannot_write': skipped, 'cdf_lines_decoded': ln,
         'exhaustive': True, 'samples': samples[:4] or ['none'],
-        'rule': 'one object through initialise(A) -> reset -> initialise(B) vs. a new object on B for consecutive dataset pairs in both orders x the four method combinations x a 7x7 deviate grid (each pair in a forked child); datasets: every assignment of {0,1e-6,1,1e3} to the cells of the kinematic triangle for n=2,3 (n=4: every assignment of {1e-6,1e3}; thorough) and eight '
+        'rule': 'decay0_generator in each gA mode x 4 nuclides equals a dbd_gA object configured directly with the matching process (every (nuclide, process) pair has a dataset of its own); one object through initialise(A) -> reset -> initialise(B) vs. a new object on B for consecutive dataset pairs in both orders x the four method combinations x a 7x7 deviate grid (each pair in a forked child); datasets: every assignment of {0,1e-6,1,1e3} to the cells of the kinematic triangle for n=2,3 (n=4: every assignment of {1e-6,1e3}; thorough) and eight '
                 'shapes (flat, ridge, corner, zero cells, runs of nines along rows / along e1 / deep, rising) for larger n, two energy ranges, written with the '
                 'repository\'s mkocdfdata.py; per dataset: every c.d.f. line decoded by load_optimized_cdf_array vs the encoder-side table (encoding precision), '
                 'monotone, in [0,1], ending at 1; inverse-transform sampler on all table boundaries (exact, +-1e-9, +-1e-3), mid points and tails: energies >= 0, '
